@@ -65,6 +65,16 @@ type Service struct {
 
 // CreatePin implements Interface.CreatePin method.
 func (s *Service) CreatePin(ctx context.Context, ref boson.Address, traverse bool) error {
+	// a reference that already has a root pin is not pinned again:
+	// repeating the call must not raise the chunks' pin counters.
+	has, err := s.HasPin(ref)
+	if err != nil {
+		return err
+	}
+	if has {
+		return nil
+	}
+
 	// iterFn is a pinning iterator function over the leaves of the root.
 	ctx = sctx.SetRootHash(ctx, ref)
 	iterFn := func(leaf boson.Address) error {
@@ -95,6 +105,16 @@ func (s *Service) CreatePin(ctx context.Context, ref boson.Address, traverse boo
 
 // DeletePin implements Interface.DeletePin method.
 func (s *Service) DeletePin(ctx context.Context, ref boson.Address) error {
+	// a reference without a root pin holds no pins of its own: unpinning
+	// its chunks would release pins that belong to other references.
+	has, err := s.HasPin(ref)
+	if err != nil {
+		return err
+	}
+	if !has {
+		return nil
+	}
+
 	var iterErr error
 	ctx = sctx.SetRootHash(ctx, ref)
 	// iterFn is a unpinning iterator function over the leaves of the root.
